@@ -143,10 +143,10 @@ Record stuck (c : chunk) (s : state) : Prop := {
 }.
 
 Lemma stuck_step : forall P c s e s',
-  p_maxage P = false -> stuck c s -> healthy_ev c e -> step P s e = Some s' ->
+  p_maxage P = false -> p_fix P = false -> stuck c s -> healthy_ev c e -> step P s e = Some s' ->
   stuck c s' /\ e <> EConsumed c /\ (forall k r, e <> ESendRet k c r).
 Proof.
-  intros P c s e s' Hage [Kpc Kstop Kinc [Ksf Ksp] Kinq Klast Klpc (ss & Kcur & Kpen & Kach & Kacl & Kabt & Kend & Ka1 & Ka2 & Ka3)] Hh Hs.
+  intros P c s e s' Hage Hfix [Kpc Kstop Kinc [Ksf Ksp] Kinq Klast Klpc (ss & Kcur & Kpen & Kach & Kacl & Kabt & Kend & Ka1 & Ka2 & Ka3)] Hh Hs.
   destruct e; simpl in Hh; try contradiction; step_inv Hs.
   all: boolprep; try congruence.
   all: try (match goal with H : pc _ = _ |- _ => rewrite H in Kpc end; simpl in Kpc; try discriminate Kpc).
@@ -161,19 +161,19 @@ Proof.
   all: try solve [intro E; inversion E; subst; apply Kinq; rewrite Heql; left; reflexivity].
 Qed.
 
-(* finding "wrong id then idle", as a theorem: once a chunk sits in the pending map of an acknowledger that has gone
+(* finding "wrong id then idle" of the ORIGINAL code (p_fix = false), as a theorem: once a chunk sits in the pending map of an acknowledger that has gone
    back to waiting for the next chunk, then - without a max session age - no continuation in which the client
    keeps running and the upstream behaves ever confirms it or transmits it again *)
 Lemma stuck_forever : forall P c tr s s',
-  p_maxage P = false -> stuck c s -> Forall (healthy_ev c) tr -> run P s tr = Some s' ->
+  p_maxage P = false -> p_fix P = false -> stuck c s -> Forall (healthy_ev c) tr -> run P s tr = Some s' ->
   stuck c s' /\ ~ In (EConsumed c) tr /\ (forall k r, ~ In (ESendRet k c r) tr).
 Proof.
-  intros P c tr. induction tr as [|e tr IH]; intros s s' Hage Hst Hf Hr.
+  intros P c tr. induction tr as [|e tr IH]; intros s s' Hage Hfix Hst Hf Hr.
   - simpl in Hr. inversion Hr; subst. split; [exact Hst|]. split; [intros []|intros k r []].
   - inversion Hf as [|? ? He Hf']; subst. simpl in Hr.
     destruct (step P s e) as [s1|] eqn:E; [|discriminate Hr].
-    destruct (stuck_step P c s e s1 Hage Hst He E) as (Hst1 & Hn1 & Hn2).
-    destruct (IH s1 s' Hage Hst1 Hf' Hr) as (Hst' & Hc & Hs).
+    destruct (stuck_step P c s e s1 Hage Hfix Hst He E) as (Hst1 & Hn1 & Hn2).
+    destruct (IH s1 s' Hage Hfix Hst1 Hf' Hr) as (Hst' & Hc & Hs).
     split; [exact Hst'|]. split.
     + intros [H|H]; [congruence|contradiction].
     + intros k r [H|H]; [exact (Hn2 k r H)|exact (Hs k r H)].
@@ -184,11 +184,11 @@ Definition stuck_run : list event :=
   [EOffer 1%N; EMainSpawn; EConnStart 1; EConnRet 1 true; EMainConn; EResendDone; ETake 1%N;
    ESendRet 1 1%N ROk; EEnqueue; EAckerTake 1%N; EAckRet 1 (AId 999999%N)].
 
-Lemma stuck_reachable : forall P, 1 <= p_cap P -> exists s, reach_by P stuck_run s /\ stuck 1%N s.
+Lemma stuck_reachable : forall P, 1 <= p_cap P -> p_fix P = false -> exists s, reach_by P stuck_run s /\ stuck 1%N s.
 Proof.
-  intros [[|cap'] age] Hcap; [simpl in Hcap; lia|].
+  intros [[|cap'] age fx] Hcap Hfix; [simpl in Hcap; lia|]. simpl in Hfix. subst fx.
   unfold reach_by.
-  destruct (run (mkParams (S cap') age) init stuck_run) as [s|] eqn:E; [|vm_compute in E; discriminate E].
+  destruct (run (mkParams (S cap') age false) init stuck_run) as [s|] eqn:E; [|vm_compute in E; discriminate E].
   exists s. split; [reflexivity|].
   vm_compute in E. inversion E; subst s. clear E.
   constructor; simpl; auto; try discriminate; try tauto.
@@ -197,7 +197,7 @@ Qed.
 
 (* ---------- runs that show which hypotheses of the conservation theorem are needed ---------- *)
 
-Definition P0 : params := mkParams 10 false.
+Definition P0 : params := mkParams 10 false true.
 
 (* outside the connection contract: the ack read never returns although the connection was closed; after
    IntermediateChannelTimeout collectLeftovers gives up ("BUG: timeout waiting for acknowledger to hard stop"),
@@ -219,7 +219,7 @@ Qed.
 Definition dup_id_run : list event :=
   [EOffer 5%N; EOffer 5%N; EMainSpawn; EConnStart 1; EConnRet 1 true; EMainConn; EResendDone;
    ETake 5%N; ESendRet 1 5%N ROk; EEnqueue; ETake 5%N; ESendRet 1 5%N ROk; EEnqueue;
-   EAckerTake 5%N; EAckRet 1 (AId 9%N); EAckerTake 5%N; EStop; EInClose; EAckRet 1 AErr;
+   EAckerTake 5%N; EStop; EInClose; EAckRet 1 AErr;
    EInClosedSeen; ECollected; ELeftover 5%N; EFinished].
 
 Lemma dup_id_lemma :
@@ -239,13 +239,13 @@ Proof.
 Qed.
 
 Lemma liveness_gap_lemma :
-  forall P : params, 1 <= p_cap P -> p_maxage P = false ->
+  forall P : params, 1 <= p_cap P -> p_maxage P = false -> p_fix P = false ->
   exists tr0 s c, reach_by P tr0 s /\ In c (taken_of tr0) /\ ~ In c (consumed_of tr0) /\
     forall tr s', Forall (healthy_ev c) tr -> run P s tr = Some s' ->
                   ~ In (EConsumed c) tr /\ (forall k r, ~ In (ESendRet k c r) tr) /\ In c (holdings s').
 Proof.
-  intros P Hcap Hage. destruct (stuck_reachable P Hcap) as (s & Hr & Hst).
+  intros P Hcap Hage Hfix. destruct (stuck_reachable P Hcap Hfix) as (s & Hr & Hst).
   exists stuck_run, s, 1%N. split; [exact Hr|]. split; [simpl; auto|]. split; [simpl; tauto|].
-  intros tr s' Hf Hrun. destruct (stuck_forever P 1%N tr s s' Hage Hst Hf Hrun) as (H1 & H2 & H3).
+  intros tr s' Hf Hrun. destruct (stuck_forever P 1%N tr s s' Hage Hfix Hst Hf Hrun) as (H1 & H2 & H3).
   split; [exact H2|]. split; [exact H3|]. apply stuck_holds. exact H1.
 Qed.
